@@ -37,7 +37,7 @@ type wgen struct {
 }
 
 func (g *wgen) p(pr float64) bool { return g.rng.Float64() < pr }
-func (g *wgen) pick(n int) int     { return g.rng.Intn(n) }
+func (g *wgen) pick(n int) int    { return g.rng.Intn(n) }
 
 func pickS(rng *rand.Rand, l ...string) string { return l[rng.Intn(len(l))] }
 func pickI(rng *rand.Rand, l ...int64) int64   { return l[rng.Intn(len(l))] }
@@ -102,6 +102,7 @@ type ggen struct {
 	npods  int
 	fleet  bool
 	ties   bool
+	big    bool
 	others []string // names of the other groups' label values
 }
 
@@ -211,7 +212,7 @@ func (g *wgen) node(gg *ggen, i int, prevAges []int64) (*v1.Node, int64) {
 	}
 	n := mkNode(g.base, gg.o.LabelValue, name, age)
 	n.Labels = map[string]string{gg.o.LabelKey: gg.o.LabelValue}
-	if !g.cfg.History || g.cfg.Malformed {
+	if (!g.cfg.History || g.cfg.Malformed) && !gg.big { // (Go's sort is stable only up to 12 elements: no ties in larger groups)
 		switch {
 		case g.p(0.03):
 			n.CreationTimestamp = metav1.Time{}
@@ -340,6 +341,7 @@ func (g *wgen) groupOpts(name string, idx int) controller.NodeGroupOptions {
 	}
 	o.MinNodes = rng.Intn(4)
 	o.MaxNodes = o.MinNodes + 1 + rng.Intn(12)
+	// (group() moves the bounds around the node count most of the time)
 	o.FastNodeRemovalRate = rng.Intn(5)
 	if g.p(0.1) {
 		o.FastNodeRemovalRate = 50
@@ -388,7 +390,19 @@ func (g *wgen) group(s *scanSpec, name string, idx int, others []string) {
 			o.MinNodes = 1
 		}
 	}
+	if g.p(0.8) { // most worlds sit inside their bounds, often exactly on one
+		if o.MinNodes > nn {
+			o.MinNodes = rng.Intn(nn + 1)
+		}
+		if o.MaxNodes < nn || o.MaxNodes <= o.MinNodes {
+			o.MaxNodes = nn + rng.Intn(4)
+			if o.MaxNodes <= o.MinNodes {
+				o.MaxNodes = o.MinNodes + 1
+			}
+		}
+	}
 	gg.ties = nn <= 12 && g.p(0.3)
+	gg.big = nn > 12
 	auto := g.p(0.12)
 	cfgMin, cfgMax := o.MinNodes, o.MaxNodes
 	if auto {
